@@ -92,6 +92,10 @@ def jobs(tier):
                       sig_prefix='uninit', deadline_s=250 if q else 1500))
     J.append(dict(module='harness.C10', func='assign_job', name='predict[N=3,K=2]', kwargs=dict(N=3, K=2, entry='predict'),
                   sig_prefix='uninit', deadline_s=250 if q else 1500))
+    # msm/transition_matrices.py: trim_disconnected (both renumbering modes) leaves the caller's count matrix alone
+    for rn in (True, False):
+        J.append(dict(module='harness.C11', func='trim_job', name='trim_disconnected[n=2,renumber_states=%s]' % rn, kwargs=dict(n=2, renumber=rn, form='dense'),
+                      sig_prefix='uninit', deadline_s=250 if q else 1500))
     # tpt/: results depend on the arguments of THIS call only - the same array objects analysed before with other contents
     J.append(dict(module='harness.tptjobs', func='flux_job', name='tpt-fluxes[n=3,arrays re-used after an earlier analysis]',
                   kwargs=dict(n=3, sources=[0], sinks=[2], reuse=True), sig_prefix='uninit', deadline_s=250 if q else 1500,
